@@ -425,45 +425,48 @@ def findTok (k : Nat) : List (Nat × Nat) → Option Nat
   | p :: ps => if p.1 == k then some p.2 else findTok k ps
 
 /-- the `for i, param in enumerate(op_signature.params)` loop; `rest` = `args[i:]` (emptied by a variadic
-parameter, as `args = []` does), accumulators in call order -/
+parameter, as `args = []` does), accumulators in call order.  Inputs are `Option`: since /repo b7afd5e an
+omitted optional input leaves a `None` placeholder, so that a later input given by keyword keeps its
+position; `tp` counts the placeholders currently at the end (`trailing_placeholders`). -/
 def sepLoop (kwargs : List (Nat × Nat)) (fill : Bool) :
-    List SigParam → List Nat → List Nat → List (Nat × Nat) → Bool →
-      Except SepErr (List Nat × List (Nat × Nat) × Bool × List Nat)
-  | [], rest, ins, attrs, hasVar => .ok (ins, attrs, hasVar, rest)
-  | p :: ps, rest, ins, attrs, hasVar =>
+    List SigParam → List Nat → List (Option Nat) → List (Nat × Nat) → Bool → Nat →
+      Except SepErr (List (Option Nat) × List (Nat × Nat) × Bool × List Nat × Nat)
+  | [], rest, ins, attrs, hasVar, tp => .ok (ins, attrs, hasVar, rest, tp)
+  | p :: ps, rest, ins, attrs, hasVar, tp =>
     if p.isInput && p.variadic then
-      sepLoop kwargs fill ps [] (ins ++ rest) attrs true
+      sepLoop kwargs fill ps [] (ins ++ rest.map some) attrs true (if rest.isEmpty then tp else 0)
     else
       match rest with
       | a :: rest' =>
-        if p.isInput then sepLoop kwargs fill ps rest' (ins ++ [a]) attrs hasVar
-        else sepLoop kwargs fill ps rest' ins (attrs ++ [(p.name, a)]) hasVar
+        if p.isInput then sepLoop kwargs fill ps rest' (ins ++ [some a]) attrs hasVar 0
+        else sepLoop kwargs fill ps rest' ins (attrs ++ [(p.name, a)]) hasVar tp
       | [] =>
         match findTok p.name kwargs with
         | some v =>
-          if p.isInput then sepLoop kwargs fill ps [] (ins ++ [v]) attrs hasVar
-          else sepLoop kwargs fill ps [] ins (attrs ++ [(p.name, v)]) hasVar
+          if p.isInput then sepLoop kwargs fill ps [] (ins ++ [some v]) attrs hasVar 0
+          else sepLoop kwargs fill ps [] ins (attrs ++ [(p.name, v)]) hasVar tp
         | none =>
           match (if p.isInput then none else p.dflt) with
           | some d =>
-            if fill then sepLoop kwargs fill ps [] ins (attrs ++ [(p.name, d)]) hasVar
-            else sepLoop kwargs fill ps [] ins attrs hasVar
+            if fill then sepLoop kwargs fill ps [] ins (attrs ++ [(p.name, d)]) hasVar tp
+            else sepLoop kwargs fill ps [] ins attrs hasVar tp
           | none =>
             if p.required then .error .missingRequired
-            else sepLoop kwargs fill ps [] ins attrs hasVar
+            else if p.isInput then sepLoop kwargs fill ps [] (ins ++ [none]) attrs hasVar (tp + 1)
+            else sepLoop kwargs fill ps [] ins attrs hasVar tp
 
 /-- `separate_input_attributes_from_arguments(op_signature, args, kwargs, fill_defaults, allow_extra_kwargs,
-allow_extra_args)` -/
+allow_extra_args)`; `del onnx_inputs[-trailing_placeholders:]` = keep all but the last `tp` -/
 def separate (params : List SigParam) (args : List Nat) (kwargs : List (Nat × Nat))
-    (fill allowExtraKw allowExtraArgs : Bool) : Except SepErr (List Nat × List (Nat × Nat)) :=
+    (fill allowExtraKw allowExtraArgs : Bool) : Except SepErr (List (Option Nat) × List (Nat × Nat)) :=
   if !allowExtraKw && kwargs.any (fun kv => !(params.any (fun p => p.name == kv.1))) then .error .unexpectedKw
   else
-    match sepLoop kwargs fill params args [] [] false with
+    match sepLoop kwargs fill params args [] [] false 0 with
     | .error e => .error e
-    | .ok (ins, attrs, hasVar, rest) =>
+    | .ok (ins, attrs, hasVar, rest, tp) =>
       -- `len(args) > len(op_signature.params)` with no variadic parameter = arguments left over
       if !allowExtraArgs && !hasVar && !rest.isEmpty then .error .tooManyArgs
-      else .ok (ins, attrs)
+      else .ok (ins.take (ins.length - tp), attrs)
 
 /-- an eager call on whatever the class exposes under the name: a stub raises -/
 def eagerCall (m : Method) (args : List (Option α)) (kw : List (Nat × Dflt)) : Option (Node α) :=
